@@ -209,6 +209,10 @@ pub fn c10(ctx: &Ctx) -> PropResult {
     for src in crate::props6::long_text_family() {
         cases.push(run_case(src, "long-texts"));
     }
+    // (appended, round 16) texts with multi-byte characters indexed at every position up to and beyond the byte length
+    for src in crate::props6::text_index_byte_window_family() {
+        cases.push(run_case(src, "text-index-byte-window"));
+    }
     let stats = run_cases(&ctx.driver, cases, &no_panic_oracle, &no_known, ctx.threads);
     PropResult {
         stats,
@@ -557,6 +561,11 @@ pub fn c15(ctx: &Ctx) -> PropResult {
         let src = format!("ok <- TRUE\nlo <- FALSE\nhi <- FALSE\nREPEAT 400 TIMES {{\nr <- RANDOM({a}, {b})\nIF (NOT (r >= {a} AND r <= {b} AND r MOD 1 == 0)) {{\nok <- FALSE\n}}\nIF (r == {a}) {{\nlo <- TRUE\n}}\nIF (r == {b}) {{\nhi <- TRUE\n}}\n}}\nDISPLAY(ok)\nDISPLAY(lo)\nDISPLAY(hi)\n");
         cases.push(run_case(src, "random-both-ends").tag("impl-only").aux(format!("{a},{b}")));
     }
+    // (appended, round 16) ranges whose width sits at the limits of the machine integer types: in range, whole
+    for (a, b) in crate::props6::random_width_family() {
+        let src = format!("ok <- TRUE\nREPEAT 60 TIMES {{\nr <- RANDOM({a}, {b})\nIF (NOT (r >= {a} AND r <= {b} AND r MOD 1 == 0)) {{\nok <- FALSE\n}}\n}}\nDISPLAY(ok)\n");
+        cases.push(run_case(src, "random-range").tag("random-width").aux(format!("{a},{b}")));
+    }
     let oracle = |case: &Case, out: &Outcome| -> Result<bool, String> {
         let nt = no_panic_oracle(case, out)?;
         if let Some(r) = &out.impl_run {
@@ -734,6 +743,10 @@ pub fn c16(ctx: &Ctx) -> PropResult {
     }
     for src in crate::props6::big_map_family() {
         cases.push(run_case(src, "big-map"));
+    }
+    // (appended, round 16) maps that live only during a call, one after the other
+    for src in crate::props6::short_lived_maps_family() {
+        cases.push(run_case(src, "short-lived-maps"));
     }
     let stats = run_cases(&ctx.driver, cases, &oracle, &no_known, ctx.threads);
     PropResult {
